@@ -403,3 +403,6 @@ def run(ctx, rep):
     sys.path.insert(0, os.path.dirname(os.path.abspath(__file__)))
     import c05
     c05.clause_rollback_authenticated(prog, rep, "rollback-arm")
+    # ... and it goes back to the epoch the re-delivered message itself carries, not to one derived from the group's current epoch
+    # (an old applied commit delivered again must not undo a later one): the rollback-arm clause of C01
+    c01.clause_rollback_arm(prog, rep)
